@@ -109,7 +109,26 @@ func (c c05Comp) Source() string {
 	if c.wrapper {
 		req := ""
 		if len(c.required) > 0 {
-			req = fmt.Sprintf(` :required="%s"`, strings.Join(c.required, ", "))
+			// the list may be written under either spelling, with any spacing around the commas, and split over both
+			// spellings on one tag (the only way to give two lists): all of it is one list, in source order
+			h := 0
+			for _, x := range c.required {
+				h = h*31 + len(x) + int(x[0])
+			}
+			h += len(c.file) + len(c.body)
+			sep := []string{", ", ",", " , ", ",  "}[h%4]
+			a, b := ":required", ":require"
+			if (h/4)%2 == 1 {
+				a, b = b, a
+			}
+			k := len(c.required)
+			if (h/8)%3 == 0 && len(c.required) >= 2 {
+				k = 1 + (h/24)%(len(c.required)-1)
+			}
+			req = fmt.Sprintf(` %s="%s"`, a, strings.Join(c.required[:k], sep))
+			if k < len(c.required) {
+				req += fmt.Sprintf(` %s="%s"`, b, strings.Join(c.required[k:], sep))
+			}
 		}
 		k := len(c.body) - c.after // the last [after] nodes of the body stand after the wrapper
 		return sb.String() + "<template" + req + ">" + c05Src(c.body[:k]) + "</template>" + c05Src(c.body[k:])
